@@ -46,6 +46,7 @@ func (ds *dataStore) save(fileName string) (err error) {
 	}()
 
 	enc := gob.NewEncoder(f)
+	verifPersistPoint("created", tmpName, fileName)
 
 	// write the header
 	ph := persistHeader{
@@ -58,6 +59,7 @@ func (ds *dataStore) save(fileName string) (err error) {
 	if err = enc.Encode(ph); err != nil {
 		return
 	}
+	verifPersistPoint("header", tmpName, fileName)
 
 	// write the data
 	for _, item := range ds.data.buckets {
@@ -106,8 +108,10 @@ func (ds *dataStore) save(fileName string) (err error) {
 		if err != nil {
 			return
 		}
+		verifPersistPoint("key", tmpName, fileName)
 	}
 
+	verifPersistPoint("complete", tmpName, fileName)
 	return
 }
 
